@@ -28,6 +28,28 @@ DATE_IDS = [_D0, _D0.replace(microsecond=1500),
             {'k': _D0.replace(microsecond=1999)}, {'k': _D0}]
 
 
+def _date_forms(base):
+    """the same stored value `base` (naive UTC, whole milliseconds) as a caller may spell it:
+    as is, with microseconds below the millisecond, tz-aware east and west of UTC (with and
+    without extra microseconds) - every spelling but the first is CHANGED by the normalisation
+    applied on insert, so the caller's value and the stored value differ"""
+    east = _dt.timezone(_dt.timedelta(minutes=120))
+    west = _dt.timezone(_dt.timedelta(minutes=-330))
+    return [base, base.replace(microsecond=base.microsecond + 500),
+            base.replace(microsecond=base.microsecond + 999),
+            (base + _dt.timedelta(minutes=120)).replace(tzinfo=east),
+            (base + _dt.timedelta(minutes=-330)).replace(
+                tzinfo=west, microsecond=base.microsecond + 250)]
+
+
+# two stored instants x five spellings x three shapes (bare, inside an embedded-document _id
+# alone or next to another key): ids that are distinct as given and collide (or not) once
+# normalised.  A history takes a few of them (HistGen(date_ids='wide')).
+_D1 = _dt.datetime(1969, 12, 31, 23, 59, 59, 998000)
+DATE_IDS_WIDE = [shape(f) for base in (_D0, _D1) for f in _date_forms(base)
+                 for shape in (lambda x: x, lambda x: {'k': x}, lambda x: {'k': 1, 'j': x})]
+
+
 def _dt_us(dt):
     d = dt.replace(tzinfo=None) - EPOCH
     return (d.days * 86400 + d.seconds) * 1000000 + d.microseconds
@@ -50,7 +72,9 @@ class HistGen(object):
         self.ttl = ttl
         self.indexes = indexes
         self.ids = [x for x in ID_POOL if embedded_ids or not isinstance(x, dict)]
-        if date_ids:
+        if date_ids == 'wide':
+            self.ids = self.ids + rng.sample(DATE_IDS_WIDE, 6)
+        elif date_ids:
             self.ids = self.ids + DATE_IDS
         self.w = dict(insert_one=18, insert_many=6, update_one=14, update_many=8, replace_one=8,
                       delete_one=5, delete_many=3, find=4, count=3, distinct=2,
